@@ -2,8 +2,9 @@
 """tools/seedkeep.py Cxx A|B "<outcome line>" — store a confirmed seeded change under /verif/seeded/<Cxx>-<X>/"""
 import sys, os, json, shutil
 pid, x, outcome = sys.argv[1], sys.argv[2], sys.argv[3]
-src = '/tmp/seed_%s/out' % pid.lower()
-dst = '/verif/seeded/%s-%s' % (pid, x)
+src = sys.argv[4] if len(sys.argv) > 4 else '/tmp/seed_%s/out' % pid.lower()
+name = sys.argv[5] if len(sys.argv) > 5 else x          # stored as seeded/<Cxx>-<name>
+dst = '/verif/seeded/%s-%s' % (pid, name)
 os.makedirs(dst, exist_ok=True)
 shutil.copy(os.path.join(src, '%s.diff' % x), os.path.join(dst, 'patch.diff'))
 shutil.copy(os.path.join(src, 'demo_%s.py' % x), os.path.join(dst, 'demo.py'))
